@@ -1,6 +1,6 @@
 """Planner tables (C04, C05, C06, C10): A-TABLE switch-table extraction, R-TABLES, R-CACHE,
 R-DFTBOUND, R-ZEROGUARD."""
-from .core import Result
+from .core import Result, is_panic_callee
 from .entry import const_return
 
 
@@ -68,7 +68,7 @@ def region_panics(F, b, start):
             continue
         if t["k"] == "call" and t.get("t") is None:
             c = F.callee_of(t)
-            if c and "panicking" in c["p"]:
+            if is_panic_callee(c):
                 continue
             return False
         if t["k"] == "return":
